@@ -2,28 +2,45 @@
 
 Geometries keep their coordinates as Python numbers or proxies; predicates are built as z3 formulas
 from the textbook definitions (closed sets):
-  * point in simple polygon      = on an edge, or odd crossing number
-  * polygon / polygon intersect  = two edges intersect, or one contains a vertex of the other
+  * point in simple polygon      = on an edge, or odd crossing number (convex rings: on the inner side of every edge)
+  * polygon / polygon intersect  = a vertex of one lies in the other, or two edges cross properly
   * disc / polygon intersect     = centre inside, or some edge within distance r of the centre
 ``Point.buffer(r)`` is the exact closed disc (shapely's 64-gon approximation is outside the claim).
+Concrete sub-computations stay in Python floats; only symbolic parts become z3 terms.
 """
 import numpy as _np
 import z3
 
 from . import symmath
-from .core import Sym, SymBool, SymReal, Unsupported, ctx, lift, wrap, _toreal
+from .core import Sym, SymBool, SymReal, Unsupported, ctx, lift, _toreal
 
 
+# ---- mixed concrete / symbolic values ---------------------------------------------------------
 def _t(v):
-    """z3 real term of a coordinate"""
-    e = lift(v)
+    """coordinate -> Python float (concrete) or z3 real term (symbolic)"""
+    if isinstance(v, (int, float)) and not isinstance(v, bool):
+        return float(v)
+    e = v.e if isinstance(v, Sym) else lift(v)
     if e is NotImplemented:
         raise Unsupported(f"shapely-lite: coordinate of type {type(v)}")
-    return _toreal(e)
+    e = _toreal(e)
+    if z3.is_rational_value(e):
+        return e.numerator_as_long() / e.denominator_as_long()
+    return e
+
+
+def _z(x):
+    if isinstance(x, z3.ExprRef):
+        return x
+    if isinstance(x, bool):
+        return z3.BoolVal(x)
+    return lift(float(x))
 
 
 def _w(e):
-    """z3 term -> python float if numeral, else proxy"""
+    """mixed value -> python float if concrete, else proxy"""
+    if not isinstance(e, z3.ExprRef):
+        return float(e)
     e = z3.simplify(e)
     if z3.is_rational_value(e):
         return e.numerator_as_long() / e.denominator_as_long()
@@ -31,6 +48,8 @@ def _w(e):
 
 
 def _sb(e):
+    if isinstance(e, bool):
+        return e
     e = z3.simplify(e)
     if z3.is_true(e):
         return True
@@ -39,33 +58,93 @@ def _sb(e):
     return SymBool(e)
 
 
+def _args(xs):
+    return xs[0] if len(xs) == 1 and isinstance(xs[0], (list, tuple)) else xs
+
+
+def And(*xs):
+    out = []
+    for x in _args(xs):
+        if x is True:
+            continue
+        if x is False:
+            return False
+        out.append(x)
+    if not out:
+        return True
+    return out[0] if len(out) == 1 else z3.And(out)
+
+
+def Or(*xs):
+    out = []
+    for x in _args(xs):
+        if x is False:
+            continue
+        if x is True:
+            return True
+        out.append(x)
+    if not out:
+        return False
+    return out[0] if len(out) == 1 else z3.Or(out)
+
+
+def Not(x):
+    return (not x) if isinstance(x, bool) else z3.Not(x)
+
+
+def Xor(a, b):
+    if isinstance(a, bool):
+        return Not(b) if a else b
+    if isinstance(b, bool):
+        return Not(a) if b else a
+    return z3.Xor(a, b)
+
+
+def If(c, a, b):
+    if isinstance(c, bool):
+        return a if c else b
+    return z3.If(c, _z(a), _z(b))
+
+
+def _dec(e):
+    return e if isinstance(e, bool) else ctx().decide(e)
+
+
+def _min2(a, b):
+    return If(a <= b, a, b)
+
+
+def _max2(a, b):
+    return If(a >= b, a, b)
+
+
 def _zmin(xs):
     m = xs[0]
     for x in xs[1:]:
-        m = z3.If(x < m, x, m)
+        m = _min2(x, m)
     return m
 
 
 def _zmax(xs):
     m = xs[0]
     for x in xs[1:]:
-        m = z3.If(x > m, x, m)
+        m = _max2(x, m)
     return m
 
 
+# ---- predicates ------------------------------------------------------------------------------
 def _cross(ax, ay, bx, by, cx, cy):
     """(b-a) x (c-a)"""
     return (bx - ax) * (cy - ay) - (by - ay) * (cx - ax)
 
 
 def _on_segment(ax, ay, bx, by, px, py):
-    return z3.And(_cross(ax, ay, bx, by, px, py) == 0,
-                  px >= z3.If(ax <= bx, ax, bx), px <= z3.If(ax >= bx, ax, bx),
-                  py >= z3.If(ay <= by, ay, by), py <= z3.If(ay >= by, ay, by))
+    return And(_cross(ax, ay, bx, by, px, py) == 0, px >= _min2(ax, bx), px <= _max2(ax, bx),
+               py >= _min2(ay, by), py <= _max2(ay, by))
 
 
 def point_in_ring(ring, px, py):
-    """closed point-in-polygon test; ring = list of (x, y) z3 terms, not repeated at the end"""
+    """closed point-in-polygon test; ring = list of (x, y), not repeated at the end"""
     n = len(ring)
     on_b = []
     cross = []
@@ -73,34 +152,26 @@ def point_in_ring(ring, px, py):
         ax, ay = ring[i]
         bx, by = ring[(i + 1) % n]
         on_b.append(_on_segment(ax, ay, bx, by, px, py))
-        # ray to the right: edge straddles the horizontal line through p, and p is left of the edge there
-        straddle = (ay > py) != (by > py)
-        # px < ax + (bx-ax)*(py-ay)/(by-ay)   (by != ay on a straddling edge); multiply by (by-ay) with its sign
+        # ray to the right: the edge straddles the horizontal line through p, and p is left of the edge there
+        straddle = Xor(ay > py, by > py)
+        # px < ax + (bx-ax)*(py-ay)/(by-ay)  (by != ay on a straddling edge); multiplied by (by-ay) with its sign
         lhs = (px - ax) * (by - ay)
         rhs = (bx - ax) * (py - ay)
-        left = z3.If(by > ay, lhs < rhs, lhs > rhs)
-        cross.append(z3.And(straddle, left))
+        left = If(by > ay, lhs < rhs, lhs > rhs)
+        cross.append(And(straddle, left))
     parity = cross[0]
     for c in cross[1:]:
-        parity = z3.Xor(parity, c)
-    return z3.Or(z3.Or(on_b), parity)
+        parity = Xor(parity, c)
+    return Or(Or(on_b), parity)
 
 
-def _seg_intersect(a, b, c, d):
-    """closed segments ab and cd share a point"""
-    ax, ay = a
-    bx, by = b
-    cx, cy = c
-    dx, dy = d
-    d1 = _cross(cx, cy, dx, dy, ax, ay)
-    d2 = _cross(cx, cy, dx, dy, bx, by)
-    d3 = _cross(ax, ay, bx, by, cx, cy)
-    d4 = _cross(ax, ay, bx, by, dx, dy)
-    proper = z3.And(z3.Or(z3.And(d1 > 0, d2 < 0), z3.And(d1 < 0, d2 > 0)),
-                    z3.Or(z3.And(d3 > 0, d4 < 0), z3.And(d3 < 0, d4 > 0)))
-    touch = z3.Or(_on_segment(cx, cy, dx, dy, ax, ay), _on_segment(cx, cy, dx, dy, bx, by),
-                  _on_segment(ax, ay, bx, by, cx, cy), _on_segment(ax, ay, bx, by, dx, dy))
-    return z3.Or(proper, touch)
+def _seg_cross_properly(a, b, c, d):
+    """the open segments ab and cd cross in a single interior point"""
+    d1 = _cross(c[0], c[1], d[0], d[1], a[0], a[1])
+    d2 = _cross(c[0], c[1], d[0], d[1], b[0], b[1])
+    d3 = _cross(a[0], a[1], b[0], b[1], c[0], c[1])
+    d4 = _cross(a[0], a[1], b[0], b[1], d[0], d[1])
+    return And(Or(And(d1 > 0, d2 < 0), And(d1 < 0, d2 > 0)), Or(And(d3 > 0, d4 < 0), And(d3 < 0, d4 > 0)))
 
 
 def _seg_within(a, b, cx, cy, r):
@@ -114,9 +185,20 @@ def _seg_within(a, b, cx, cy, r):
     db = (cx - bx) * (cx - bx) + (cy - by) * (cy - by)
     cr = _cross(ax, ay, bx, by, cx, cy)
     r2 = r * r
-    return z3.If(t <= 0, da <= r2, z3.If(t >= l2, db <= r2, cr * cr <= r2 * l2))
+    return If(t <= 0, da <= r2, If(t >= l2, db <= r2, cr * cr <= r2 * l2))
 
 
+def _signed_area(ring):
+    n = len(ring)
+    s = 0.0
+    for i in range(n):
+        ax, ay = ring[i]
+        bx, by = ring[(i + 1) % n]
+        s = s + (ax * by - bx * ay)
+    return s / 2
+
+
+# ---- geometry classes ---------------------------------------------------------------------------
 class _Coords(list):
     @property
     def xy(self):
@@ -137,17 +219,7 @@ class _Ring:
 
     @property
     def is_ccw(self):
-        return _signed_area([(_t(x), _t(y)) for x, y in self._pts[:-1]]) > 0
-
-
-def _signed_area(ring):
-    n = len(ring)
-    s = 0
-    for i in range(n):
-        ax, ay = ring[i]
-        bx, by = ring[(i + 1) % n]
-        s = s + (ax * by - bx * ay)
-    return s / 2
+        return _sb(_signed_area([(_t(x), _t(y)) for x, y in self._pts[:-1]]) > 0)
 
 
 class BaseGeometry:
@@ -213,7 +285,7 @@ class Disc(BaseGeometry):
 
     def _contains_pt(self, px, py):
         cx, cy, r = _t(self.x), _t(self.y), _t(self.r)
-        return z3.And(r >= 0, (px - cx) * (px - cx) + (py - cy) * (py - cy) <= r * r)
+        return And(r >= 0, (px - cx) * (px - cx) + (py - cy) * (py - cy) <= r * r)
 
     def intersects(self, other):
         if isinstance(other, Point):
@@ -221,8 +293,8 @@ class Disc(BaseGeometry):
         if isinstance(other, Disc):
             cx, cy, r = _t(self.x), _t(self.y), _t(self.r)
             ox, oy, orr = _t(other.x), _t(other.y), _t(other.r)
-            return _sb((cx - ox) * (cx - ox) + (cy - oy) * (cy - oy) <= (r + orr) * (r + orr))
-        if isinstance(other, Polygon):
+            return _sb(And(r >= 0, orr >= 0, (cx - ox) * (cx - ox) + (cy - oy) * (cy - oy) <= (r + orr) * (r + orr)))
+        if isinstance(other, (Polygon, MultiPolygon)):
             return other.intersects(self)
         raise Unsupported("shapely-lite: Disc.intersects " + type(other).__name__)
 
@@ -246,7 +318,12 @@ class Polygon(BaseGeometry):
         self._pts = pts
 
     def _ring(self):
-        return [(_t(x), _t(y)) for x, y in self._pts[:-1]]
+        if not hasattr(self, "_ring_cache"):
+            self._ring_cache = [(_t(x), _t(y)) for x, y in self._pts[:-1]]
+        return self._ring_cache
+
+    def __deepcopy__(self, memo):
+        return Polygon(list(self._pts))
 
     @property
     def exterior(self):
@@ -265,16 +342,16 @@ class Polygon(BaseGeometry):
     @property
     def area(self):
         a = _signed_area(self._ring())
-        return _w(z3.If(a >= 0, a, -a))
+        return _w(If(a >= 0, a, -a))
 
     @property
     def centroid(self):
         r = self._ring()
         n = len(r)
         a = _signed_area(r)
-        if not ctx().decide(a != 0):
+        if not _dec(a != 0):
             raise Unsupported("shapely-lite: centroid of a degenerate polygon")
-        cx = cy = 0
+        cx = cy = 0.0
         for i in range(n):
             ax, ay = r[i]
             bx, by = r[(i + 1) % n]
@@ -292,12 +369,11 @@ class Polygon(BaseGeometry):
         n = len(r)
         self._convex = 0
         if n <= 6:
-            cr = [z3.simplify(_cross(r[i][0], r[i][1], r[(i + 1) % n][0], r[(i + 1) % n][1], r[(i + 2) % n][0], r[(i + 2) % n][1]))
+            cr = [_cross(r[i][0], r[i][1], r[(i + 1) % n][0], r[(i + 1) % n][1], r[(i + 2) % n][0], r[(i + 2) % n][1])
                   for i in range(n)]
-            c = ctx()
-            if c.decide(z3.And([x >= 0 for x in cr] + [z3.Or([x > 0 for x in cr])])):
+            if _dec(And([x >= 0 for x in cr] + [Or([x > 0 for x in cr])])):
                 self._convex = 1
-            elif c.decide(z3.And([x <= 0 for x in cr] + [z3.Or([x < 0 for x in cr])])):
+            elif _dec(And([x <= 0 for x in cr] + [Or([x < 0 for x in cr])])):
                 self._convex = -1
         return self._convex
 
@@ -308,7 +384,7 @@ class Polygon(BaseGeometry):
             return point_in_ring(ring, px, py)
         n = len(ring)
         sides = [_cross(ring[i][0], ring[i][1], ring[(i + 1) % n][0], ring[(i + 1) % n][1], px, py) for i in range(n)]
-        return z3.And([x >= 0 for x in sides]) if cv > 0 else z3.And([x <= 0 for x in sides])
+        return And([x >= 0 for x in sides]) if cv > 0 else And([x <= 0 for x in sides])
 
     def intersects(self, other):
         ring = self._ring()
@@ -318,23 +394,22 @@ class Polygon(BaseGeometry):
             cx, cy, r = _t(other.x), _t(other.y), _t(other.r)
             n = len(ring)
             near = [_seg_within(ring[i], ring[(i + 1) % n], cx, cy, r) for i in range(n)]
-            return _sb(z3.And(r >= 0, z3.Or(point_in_ring(ring, cx, cy), z3.Or(near))))
+            return _sb(And(r >= 0, Or(self._contains_pt(cx, cy), Or(near))))
         if isinstance(other, Polygon):
+            # two closed simple polygons meet iff a vertex of one lies in the other or two edges cross properly
+            # (touching / overlapping edges always put an end point of one edge on the other polygon)
             o = other._ring()
             n, m = len(ring), len(o)
-            if n * m > 64:
-                raise Unsupported("shapely-lite: polygon/polygon test beyond 64 edge pairs")
-            parts = [_seg_intersect(ring[i], ring[(i + 1) % n], o[j], o[(j + 1) % m]) for i in range(n) for j in range(m)]
-            parts.append(point_in_ring(ring, o[0][0], o[0][1]))
-            parts.append(point_in_ring(o, ring[0][0], ring[0][1]))
-            return _sb(z3.Or(parts))
+            if n * m > 144:
+                raise Unsupported("shapely-lite: polygon/polygon test beyond 144 edge pairs")
+            parts = [other._contains_pt(x, y) for x, y in ring] + [self._contains_pt(x, y) for x, y in o]
+            parts += [_seg_cross_properly(ring[i], ring[(i + 1) % n], o[j], o[(j + 1) % m]) for i in range(n) for j in range(m)]
+            return _sb(Or(parts))
         if isinstance(other, MultiPolygon):
             return _any(self.intersects(g) for g in other.geoms)
         raise Unsupported("shapely-lite: Polygon.intersects " + type(other).__name__)
 
     def contains(self, other):
-        if isinstance(other, Point):
-            raise Unsupported("shapely-lite: Polygon.contains(Point) (interior only) is not modelled")
         raise Unsupported("shapely-lite: Polygon.contains " + type(other).__name__)
 
     def buffer(self, d, *a, **k):
@@ -366,7 +441,7 @@ class MultiPolygon(BaseGeometry):
 def _same_pt(p, q):
     for a, b in zip(p, q):
         if isinstance(a, Sym) or isinstance(b, Sym):
-            ea, eb = z3.simplify(_t(a)), z3.simplify(_t(b))
+            ea, eb = z3.simplify(_z(_t(a))), z3.simplify(_z(_t(b)))
             if not ea.eq(eb):
                 return False
         elif a != b:
@@ -415,9 +490,9 @@ class _NS:
 def _orient(polygon, sign=1.0):
     r = polygon._ring()
     a = _signed_area(r)
-    ccw = ctx().decide(a > 0) if not z3.is_rational_value(z3.simplify(a)) else bool(z3.simplify(a > 0))
+    ccw = _dec(a > 0)
     want_ccw = sign >= 0
-    if ccw == want_ccw or (not ccw and not ctx().decide(a != 0)):
+    if ccw == want_ccw or (not ccw and not _dec(a != 0)):
         return Polygon(list(polygon._pts))
     return Polygon(list(reversed(polygon._pts)))
 
